@@ -475,7 +475,15 @@ func C18(c *Ctx) {
 				c.Pass(r2, key(fn, fmt.Sprintf("lock-delete[%d]<-ok(commit-record)|already-committed", i+1)), d.Pos(), 2, "lock removal on the already-committed path (a write record for the start ts exists)")
 				continue
 			}
-			succOK(c, r2, key(fn, fmt.Sprintf("lock-delete[%d]<-ok(commit-record)|already-committed", i+1)), fn, commitRec, "commit record write", d.(ssa.Instruction), "lock removal")
+			// a removal shared by both paths: the edges on which the record was found count as
+			// satisfied, every other route to it must pass the successful commit-record write
+			found := edgeSet{}
+			if wv != nil {
+				for _, e := range NilEdges(fn, map[ssa.Value]bool{wv: true}) {
+					found[e.NonNil] = true
+				}
+			}
+			succOK(c, r2, key(fn, fmt.Sprintf("lock-delete[%d]<-ok(commit-record)|already-committed", i+1)), fn, commitRec, "commit record write", d.(ssa.Instruction), "lock removal", found)
 		}
 	}
 
@@ -852,8 +860,23 @@ func C19(c *Ctx) {
 			dels++
 			c.Decide(outcomeChecked(fn, w), r3, key(fn, fmt.Sprintf("lock-delete[%d]#error-checked", i+1)), w.Pos(), 1, "delete outcome is examined", "the error of the lock delete is ignored")
 		}
-		want := map[string]int{"rollbackKey": 1, "commitKey": 2}[name]
-		c.Decide(dels >= want, r3, key(fn, "lock-deletes"), fn.Pos(), dels+1, fmt.Sprintf("%d lock delete site(s)", dels), fmt.Sprintf("expected %d lock delete site(s) in %s, found %d: a lock would outlive its transaction", want, name, dels))
+		c.Decide(dels >= 1, r3, key(fn, "lock-deletes"), fn.Pos(), dels+1, fmt.Sprintf("%d lock delete site(s)", dels), fmt.Sprintf("no lock delete site in %s: a lock would outlive its transaction", name))
+		if name == "commitKey" {
+			// every success return of commitKey lies behind a lock removal (fresh commit and
+			// already-committed paths alike, however many delete sites spell it)
+			bad, n := 0, 0
+			ds := instrs(effectSites(c, fn, isLockDeleteOf(cfLock), 2))
+			for _, r := range Returns(fn) {
+				if !IsNilConst(RetVal(r, 0)) {
+					continue
+				}
+				n++
+				if ok, _ := MustPrecede(fn, r, ds); !ok {
+					bad++
+				}
+			}
+			c.Decide(n > 0 && bad == 0, r3, key(fn, "success→lock-removed"), fn.Pos(), n+1, "every success return follows a lock removal", "commitKey can report success without removing the lock: the lock would outlive its transaction")
+		}
 	}
 }
 
